@@ -417,6 +417,8 @@ func check(r *core.Run) {
 		n = 5000
 	}
 	r.DirectionB("types", n, core.TLCOpts{Module: "TypesTrace", Cfg: "TypesTrace.cfg", HeapGB: 8})
+	// sets with several revisions of the imported module, and two revisions of the importer pinned to them
+	schema.RegistryReg(r)
 }
 
 // ---- direction B: random scope structures judged by TypesTrace.tla / TypesG.tla ------------
